@@ -10,7 +10,7 @@ CONSTANTS Design, MaxEntries
 \* <<"..", "fresh", "x">> needs a directory that does not exist yet outside; <<"a", "sub", "x">> lies two levels below a
 \* possible link
 Paths == { <<"a">>, <<".", "a">>, <<"b">>, <<"a", "b">>, <<"..", "out", "victim">>, <<"a", "..", "..", "out", "x">>,
-           <<"..", "fresh", "x">>, <<"a", "sub", "x">> }
+           <<"..", "fresh", "x">>, <<"a", "sub", "x">>, <<".">> }      \* <<".">> names the target directory itself
 Targets == { [abs |-> FALSE, comps |-> <<"..", "out">>], [abs |-> TRUE, comps |-> <<"out">>], [abs |-> FALSE, comps |-> <<"b">>],
              [abs |-> FALSE, comps |-> <<"..", "out", "new">>], [abs |-> TRUE, comps |-> <<"out", "new2">>] }
 Entries == { [comps |-> p, kind |-> "file", data |-> "new", target |-> [abs |-> FALSE, comps |-> <<>>]] : p \in Paths }
